@@ -6,6 +6,22 @@ var realAll = []string{"every package of /repo (scratch copy, mechanically instr
 
 func init() {
 	register(&propCfg{
+		id: "C20", worker: "c20", goCmd: "go",
+		instrument: []string{"-maps", "-clock", "-tick"},
+		tiers: map[string]tierCfg{
+			"quick":    {cases: 120_000, timeout: 15 * time.Minute},
+			"thorough": {cases: 12_000_000, timeout: 90 * time.Minute},
+		},
+		level: "exploration",
+		rule: "case = one tape: a font (TrueType / CFF / CID-keyed CFF, 1..200 glyphs) with a tape-chosen pattern of complete, missing, duplicate or absent glyph names (incl. a short TrueType name list), a cmap, and GSUB 1.1/1.2/3.1/4.1 lookups among existing glyphs in which several sources compete for the same target. MakeGlyphNames is asked under five map-order assignments (first and last equal: plain repetition), the font digest is compared before/after, the names are installed on a copy (EnsureGlyphNames), read back glyph by glyph and asked for again; CID-keyed fonts are converted with MakeSimple under three orders; PostScriptName is computed for a family name from a pool with forbidden characters. Non-trivial = every case; distinct = distinct font digest.",
+		real:  realAll,
+		stubs: []string{"map iteration order at every repository site", "call history on the font value (ask / install / ask again)"},
+		assume: []string{
+			"cmap and GSUB refer to existing glyphs only (the property's domain)",
+			"the order in which inference sources are tried (cmap before GSUB before ornNNN) is not checked: it is a pure function of the input and needs a model of the inference",
+		},
+	})
+	register(&propCfg{
 		id: "C01", worker: "c01", goCmd: "go",
 		instrument: []string{"-maps", "-clock", "-tick"},
 		tiers: map[string]tierCfg{
